@@ -50,6 +50,7 @@ type caseIn struct {
 }
 
 type result struct {
+	SecondErr string           `json:"second_assemble_error,omitempty"`
 	ID        string           `json:"id"`
 	Origin    string           `json:"origin"`
 	N         int              `json:"n"`
@@ -397,6 +398,25 @@ func judge(c *caseIn, origin string) result {
 	}
 	if _, e := bpf.Assemble(out); e != nil {
 		return fail("raw encoding fails: " + e.Error())
+	}
+	// Assemble is a method of a value the caller keeps (dump it, then install it): a second call on the same Program must
+	// again return a list that behaves like the label program
+	out2, err2, pan2 := assemble(&prog)
+	if pan2 != nil {
+		return fail("a second Assemble of the same Program panicked: " + fmt.Sprint(pan2))
+	}
+	if err2 != nil {
+		// the tree as it is refuses some programs the second time (a jump whose two branches share one far label resolves both
+		// to the nearest bridge: "useless jump found"); an error returns no list, so there is nothing the statement could be
+		// applied to - recorded, not judged
+		r.SecondErr = err2.Error()
+		r.Verdict = "ok"
+		return r
+	}
+	oc2, oerr2 := in.UnfoldOut(out2)
+	if oerr2 != nil || lc[0] != oc2[0] {
+		out = out2
+		return fail("the list a second Assemble of the same Program returns is not path-equivalent to the label program")
 	}
 	r.Verdict = "ok"
 	return r
